@@ -724,15 +724,15 @@ protected:
             const XalanDOMChar  theChar = chars[i];
 
             if (theChar == XalanUnicode::charRightSquareBracket &&
-                i - length > 2 &&
+                length - i > 2 &&
                 XalanUnicode::charRightSquareBracket == chars[i + 1] &&
                 XalanUnicode::charGreaterThanSign == chars[i + 2])
             {
                 if (outsideCDATA == true)
                 {
                     m_writer.write(
-                        m_constants.s_cdataCloseString,
-                        m_constants.s_cdataCloseStringLength);
+                        m_constants.s_cdataOpenString,
+                        m_constants.s_cdataOpenStringLength);
                 }
 
                 m_writer.write(value_type(XalanUnicode::charRightSquareBracket));
@@ -772,13 +772,6 @@ protected:
             }
 
             ++i;
-        }
-
-        if(outsideCDATA == true)
-        {
-            m_writer.write(
-                m_constants.s_cdataOpenString,
-                m_constants.s_cdataOpenStringLength);
         }
     }
 
